@@ -11032,6 +11032,9 @@ impl<'a> Parser<'a> {
                 source,
             })
         } else {
+            if local {
+                return self.expected("DIRECTORY after LOCAL", self.peek_token());
+            }
             // Hive lets you put table here regardless
             let table = self.parse_keyword(Keyword::TABLE);
             let table_name = self.parse_object_name(false)?;
